@@ -25,6 +25,8 @@ type c11Case struct {
 	Phase    int    `json:"phase"`     // steps completed before the end: 0 none, 1 handshake, 2 tunnel, 3 auth, 4 channel, 5 channel+data
 	InFlight string `json:"in_flight"` // none | client | host | both
 	Ending   string `json:"ending"`    // close | out-of-order | unframeable | fin | rst | fin-out | rst-out
+	DupIn    bool   `json:"duplicate_in,omitempty"` // legacy: a second RDG_IN_DATA with the same connection id arrives while the tunnel is live
+	Stalled  bool   `json:"stalled_client,omitempty"` // websocket: the client stops reading while the host keeps sending, then ends the tunnel without eliciting a response
 }
 
 const releaseBound = 5 * time.Second
@@ -47,6 +49,16 @@ func genC11(t *rapid.T) c11Case {
 		ends = []string{"fin-out", "rst-out"}
 	}
 	c.Ending = rapid.SampledFrom(ends).Draw(t, "ending")
+	if c.Kind == "legacy" && c.Phase >= 1 {
+		c.DupIn = rapid.IntRange(0, 3).Draw(t, "dupIn") == 0
+	}
+	if c.Kind == "ws" && c.Phase >= 4 && rapid.IntRange(0, 5).Draw(t, "stalled") == 0 {
+		// endings that need no response from the gateway (a response could not be written to a client that
+		// does not read; that combination is not explored, see DESIGN.md)
+		c.Stalled = true
+		c.InFlight = "host"
+		c.Ending = rapid.SampledFrom([]string{"unframeable", "fin", "rst"}).Draw(t, "stalledEnding")
+	}
 	return c
 }
 
@@ -105,7 +117,8 @@ func runC11(c c11Case) *Violation {
 		snap := w.snap()
 		defer w.observe(snap, 0)
 		tgt := inpTarget(userHeader(o, w.User)...)
-		conn, err := gwc.Dial(c.Kind, tgt, sess.NewConnID())
+		connID := sess.NewConnID()
+		conn, err := gwc.Dial(c.Kind, tgt, connID)
 		if err != nil {
 			return viol("c11/open", "transport did not open: %v", err)
 		}
@@ -140,10 +153,23 @@ func runC11(c c11Case) *Violation {
 				return viol("c11/setup", "data not relayed during set-up")
 			}
 		}
+		if c.DupIn {
+			// a retried RDG_IN_DATA for the live connection id: it must be refused and change nothing
+			if l2, err := gwc.OpenInOnly(tgt, connID); l2 != nil {
+				if err == nil {
+					l2.WaitInClosed(releaseBound)
+				}
+				l2.Close()
+			}
+		}
 		// traffic in flight at the moment of the end
 		stopHost := make(chan struct{})
 		hostDone := make(chan struct{})
-		if c.InFlight == "host" || c.InFlight == "both" {
+		if c.Stalled {
+			conn.(*gwc.WS).Pause(true)
+			host.Flood(streamBytes(5, 0, 1<<20), 300*time.Millisecond, 256<<20)
+			close(hostDone)
+		} else if c.InFlight == "host" || c.InFlight == "both" {
 			go func() {
 				defer close(hostDone)
 				chunk := streamBytes(7, 0, 3000)
@@ -213,6 +239,15 @@ func runC11(c c11Case) *Violation {
 		if host != nil && !host.WaitEOF(releaseBound) {
 			return viol(sig("c11/backend-not-closed/"+c.Ending), "the connection to the remote desktop host is still open %v after the tunnel ended (%s)", releaseBound, desc)
 		}
+		if c.Stalled {
+			// while the client still does not read: the handler and its goroutines must be gone already
+			if !inp().WaitIdle(releaseBound) {
+				return viol(sig("c11/handler-still-running/stalled-client"), "%d request handler(s) still running while the client does not read (%s)", inp().Active(), desc)
+			}
+			if ws, ok := conn.(*gwc.WS); ok {
+				ws.Pause(false)
+			}
+		}
 		// 2. the client-facing connections are closed by the gateway
 		if !clientClosedAll {
 			switch cc := conn.(type) {
@@ -263,6 +298,13 @@ func countPackets(c gwc.Conn) int {
 
 func TestC11_INP(t *testing.T) {
 	runProp(t, "C11_INP", genC11, func(c c11Case) (bool, []string) {
-		return c.Phase >= 4 || c.InFlight != "none", []string{"kind=" + c.Kind, fmt.Sprintf("phase=%d", c.Phase), "ending=" + c.Ending, "inflight=" + c.InFlight}
+		cl := []string{"kind=" + c.Kind, fmt.Sprintf("phase=%d", c.Phase), "ending=" + c.Ending, "inflight=" + c.InFlight}
+		if c.DupIn {
+			cl = append(cl, "duplicate-in")
+		}
+		if c.Stalled {
+			cl = append(cl, "stalled-client")
+		}
+		return c.Phase >= 4 || c.InFlight != "none", cl
 	}, runC11)
 }
